@@ -243,6 +243,17 @@ def pair_abstraction(prop, cases, impl, tag):
                 if len(v) == 3:
                     st["explained_runs_quiescent_shape"] += 1
             else:
+                # the abstract system has ONE connection at a time; a run in which the master's new connection was accepted
+                # while the outstation's previous session was still alive (half-open connection, `linger`) has a window
+                # with two sessions that no label describes: such a run is judged by the direct oracle only
+                try:
+                    overlap = analyse(c.script, impl.get(c.sid, []))[1].get("connections_overlapping_a_session", 0) > 0
+                except Exception:
+                    overlap = False
+                if overlap:
+                    st.setdefault("not_judged_overlapping_sessions", []).append(c.sid)
+                    model[c.sid] = prop.expected[trace_hash(impl.get(c.sid, ["missing"]))]
+                    continue
                 st["unexplained_runs"].append(c.sid)
                 c.meta["abstraction"]["verdict"] = v
     return model
